@@ -51,6 +51,9 @@ static struct th {
   void* pw_addr;
   uint8_t pw_old[16];
   int pw_sz;
+  // the last plain shared writes of this thread: location and the value it held BEFORE that write
+  struct { void* a; uint8_t before[16]; } tog[8];
+  int togn;
   sbuf_t sb;
 } T[MAXT];
 static volatile int nth = 1, cur = 0;
@@ -197,8 +200,22 @@ void fmc_progress(void) { if (fmc_is_exploring) progress(); }
 static void capture_pending(struct th* t) {
   if (t->pw_addr) {
     if (memcmp(t->pw_addr, t->pw_old, t->pw_sz) != 0) {
-      if (fmc_tracing > 1) fmc_rawlog("[%lu] T%d progress (plain write %p)\n", (unsigned long)TR->steps, me, t->pw_addr);
-      progress_at(t->pw_addr, t->pw_sz);
+      // a write that puts back the value the location held before this thread's previous write
+      // to it (A->B->A->B..., e.g. an idle thread swapping its two run-queue pointers on every
+      // look for work) is the signature of a loop that is going nowhere: it is not progress
+      int k = 0, toggle = 0;
+      while (k < t->togn && t->tog[k].a != t->pw_addr) k++;
+      if (k < t->togn) {
+        toggle = memcmp(t->tog[k].before, t->pw_addr, t->pw_sz) == 0;
+      } else {
+        k = t->togn < 8 ? t->togn++ : (int)(TR->steps & 7);
+        t->tog[k].a = t->pw_addr;
+      }
+      memcpy(t->tog[k].before, t->pw_old, t->pw_sz);
+      if (!toggle) {
+        if (fmc_tracing > 1) fmc_rawlog("[%lu] T%d progress (plain write %p)\n", (unsigned long)TR->steps, me, t->pw_addr);
+        progress_at(t->pw_addr, t->pw_sz);
+      }
     }
     t->pw_addr = 0;
   }
